@@ -8,7 +8,7 @@
 
   * `chooseRaw`   override -> name hint -> fallback, as in `complete_setup` (all three missing = the real code asserts)
   * `sanitize`    the repair `fixes/C06-sanitize-names.patch`:  re.sub("[^A-Za-z0-9]+", "_", name).strip("_"),
-                  empty -> "unnamed", digit first -> "n" + name        (the unpatched code only did `strip("_")`)
+                  empty -> cfg.empty, non-letter first -> cfg.pre + name  (spellings are inputs: SanCfg; currently "unnamed" / "n")
   * `pick`        the suffix search: `1, 2, 4, ..` until a free candidate, then the bisection
                   `step = cnt // 2; while step: if free(cnt - step): cnt -= step; step //= 2`
   * `assignScope` one scope: names in declaration order, every assigned name enters the used set lower-cased
@@ -91,11 +91,29 @@ def squeeze : Bool → Bool → List Char → List Char
 
 def unnamed : Name := "unnamed".toList
 
-def fixStart : Name → Name
-  | [] => unnamed
-  | c :: cs => if isLetter c then c :: cs else 'n' :: c :: cs
+/-- what the compiler substitutes: `empty` for a name without any usable character, `pre` in front of a name
+    that does not start with a letter.  Both spellings are the compiler's choice (INPUTS of the model, read from
+    the real `complete_setup` on every run); the property only needs them to be identifiers themselves (`GoodCfg`). -/
+structure SanCfg where
+  empty : Name
+  pre : Name
+  deriving Repr
 
-def sanitize (raw : Name) : Name := fixStart (squeeze false false raw)
+def fixStartWith (cfg : SanCfg) : Name → Name
+  | [] => cfg.empty
+  | c :: cs => if isLetter c then c :: cs else cfg.pre ++ c :: cs
+
+def sanitizeWith (cfg : SanCfg) (raw : Name) : Name := fixStartWith cfg (squeeze false false raw)
+
+/-- the spellings of the current repair (`unnamed`, `n`) -/
+def defaultCfg : SanCfg := ⟨unnamed, ['n']⟩
+
+def sanitize (raw : Name) : Name := sanitizeWith defaultCfg raw
+
+/-- requirement on the substituted spellings: `empty` is a basic identifier, `pre` is a letter followed by
+    identifier characters not ending in an underline -/
+def goodCfg (cfg : SanCfg) : Bool :=
+  basicId cfg.empty && (match cfg.pre with | [] => false | p :: ps => isLetter p && scan false ps)
 
 /-! ### the collision search -/
 
@@ -129,14 +147,15 @@ def pick (used : List Name) (base : Name) : Name :=
 /-! ### scopes -/
 
 /-- one scope: returns the assigned names (declaration order) and the final used set -/
-def assignScope : List Name → List Name → List Name × List Name
+def assignScope (cfg : SanCfg) : List Name → List Name → List Name × List Name
   | used, [] => ([], used)
   | used, r :: rs =>
-      let n := pick used (sanitize r)
-      let rest := assignScope (lower n :: used) rs
+      let n := pick used (sanitizeWith cfg r)
+      let rest := assignScope cfg (lower n :: used) rs
       (n :: rest.1, rest.2)
 
 structure Design where
+  cfg : SanCfg
   reserved : List Name          -- ModuleScope._vhdl_reserved ∪ _additional_reserved (lower case in the source)
   additional : List Name        -- `additional_reserved_names` of the compiler call (lower-cased on entry, see fix)
   moduleDecls : List Name       -- raw names
@@ -154,17 +173,17 @@ structure Assigned where
   deriving Repr, DecidableEq
 
 def assignDesign (d : Design) : Assigned :=
-  let m := assignScope (d.reserved ++ d.additional.map lower) d.moduleDecls
-  let e := assignScope m.2 d.entityDecls
-  let a := assignScope (e.2 ++ d.archReserved.map lower) d.archDecls
+  let m := assignScope d.cfg (d.reserved ++ d.additional.map lower) d.moduleDecls
+  let e := assignScope d.cfg m.2 d.entityDecls
+  let a := assignScope d.cfg (e.2 ++ d.archReserved.map lower) d.archDecls
   { moduleNames := m.1, entityNames := e.1, archNames := a.1,
-    procNames := d.procs.map (fun p => (assignScope a.2 p).1) }
+    procNames := d.procs.map (fun p => (assignScope d.cfg a.2 p).1) }
 
 /-- used set seen by the processes (final used set of the architecture scope) -/
 def archUsed (d : Design) : List Name :=
-  let m := assignScope (d.reserved ++ d.additional.map lower) d.moduleDecls
-  let e := assignScope m.2 d.entityDecls
-  (assignScope (e.2 ++ d.archReserved.map lower) d.archDecls).2
+  let m := assignScope d.cfg (d.reserved ++ d.additional.map lower) d.moduleDecls
+  let e := assignScope d.cfg m.2 d.entityDecls
+  (assignScope d.cfg (e.2 ++ d.archReserved.map lower) d.archDecls).2
 
 /-! ### hoisting (`VhdlScope.declare` / the first loop of `complete_setup`)
 
